@@ -47,11 +47,12 @@ def real_ty_sexp(tree, T, aligned):
         kind, base, _ = defs.ENUMS[tree[1]]
         return [A(kind), base]
     if k == "ptr":
-        return [A("ptr"), real_ty_sexp(tree[1], T.type, aligned)]
+        return [A("ptr"), real_ty_sexp(tree[1], getattr(T, "type", T), aligned)]
     if k == "arr":
         l = tree[2]
         ls = {"fixed": lambda: [A("fixed"), l[1]], "expr": lambda: [A("expr"), l[1]], "null": lambda: A("null"), "eof": lambda: A("eof")}[l[0]]()
-        return [A("arr"), real_ty_sexp(tree[1], T.type, aligned), ls]
+        # (a library that hands out a wrong class for an array type must not trip the harness here: the oracles report it)
+        return [A("arr"), real_ty_sexp(tree[1], getattr(T, "type", T), aligned), ls]
     fs = []
     for f, rf in zip(tree[1], T.__fields__):
         fs.append([A("f"), rf._name, 1 if f["name"] is None else 0, real_ty_sexp(f["ty"], rf.type, aligned), f["bits"] or 0])
